@@ -295,7 +295,13 @@ func verifC19Two(nBackends int) {
 		verifAssert(len(ch.incomingEvents) == 2, "events with unknown senders are handed to the lookup loop")
 		for _, r := range recs {
 			verifAssert(len(r.events) == 0, "an event must not reach a backend before its sender's lookup completed")
-			r.parkedIn = ch
+			// symbolically (one cooperative schedule) the backends run inside the cloud stage's dispatch;
+			// natively they run whenever the Go scheduler gets to them, possibly after both events were
+			// released, so the in-SendEvent wait-group observation is only meaningful symbolically here
+			// (the single-event entries replay it natively)
+			if !verifNative() {
+				r.parkedIn = ch
+			}
 		}
 		ch.handleIncomingEvent(<-ch.incomingEvents)
 		ch.handleIncomingEvent(<-ch.incomingEvents)
